@@ -154,6 +154,7 @@ def run(prog, tier, res):
         res.violate(R4, ts, "accessor", "MainEvent::timestamp() does not return the trigger_timestamp field", prog.body(ts).where())
     res.functions.add(ts)
     calibration_tables(prog, res)
+    calibration_lookups(prog, res)
     res.sample({"bank_loop_paths": len(loops_g.get(spec["bank_loop_key"]) or [])})
     res.sample({"wire_store": got["stores"][0] if got["stores"] else None})
     res.undecided = ["numerical equality of stored samples (follows from the expression shape and IEEE arithmetic)", "contents of the embedded calibration files"]
@@ -199,6 +200,71 @@ def calibration_tables(prog, res):
                         "served from another run's table instead of being reported as unavailable" % (own, other, q), prog.bodies[ip].where())
         else:
             res.hit(R5)
+
+
+def _calls_in(t, out):
+    if isinstance(t, tuple):
+        if t and t[0] == "call" and isinstance(t[1], str):
+            out.append(short(t[1]))
+        for x in t:
+            _calls_in(x, out)
+    return out
+
+
+def calibration_lookups(prog, res):
+    """C10.R6: a table lookup that finds no entry for the element is an error, never a default (`get(..).ok_or(..)`, or an
+    explicit Ok only under `get(..) is Some`); C10.R7: the table MAP_<tag> is built from the embedded constant BYTES_<tag>
+    of its own module (the repository's own convention, stated above every `lazy_static!` block)."""
+    import re
+    R6 = res.rule("C10.R6", "calibration lookups: no Ok result without an entry of the table for the element (missing entry => error, no default)", 2)
+    R7 = res.rule("C10.R7", "calibration tables: MAP_<tag> is built from BYTES_<tag> of the same module", 7)
+    DEFAULTS = ("Option::<T>::unwrap_or", "Option::<T>::unwrap_or_default", "Option::<T>::unwrap_or_else", "Option::<T>::or", "Option::<T>::or_else",
+                "Option::<T>::map_or", "Option::<T>::map_or_else", "Option::<T>::unwrap", "Option::<T>::expect")
+    PASS = ("HashMap::<K, V, S, A>::get", "Option::<&T>::copied", "Option::<&T>::cloned")
+    fns = sorted(p for p, b in prog.bodies.items() if p.startswith(CAL) and "::try_" in p and b.kind in ("Fn", "AssocFn"))
+    for fn in fns:
+        b = prog.bodies[fn]
+        gets = [t for _, t in b.calls() if short(cname(t)) == "HashMap::<K, V, S, A>::get"]
+        if not gets:
+            continue                       # a delay function: a run-number table without elements (C08.R2)
+        res.functions.add(fn)
+        tabs, an, sy = accept.accept_tables(prog, fn)
+        bad, seen_form = None, False
+        for tb in tabs:
+            for pth in tb.paths:
+                seen_form = True
+                if not any("HashMap" in a_ and "get(" in a_ and a_.endswith(" is Some") for a_ in pth):
+                    bad = ("ok-without-entry", "an Ok result is built on a path that does not require `get(..)` to be Some: %s" % sorted(pth))
+        for _, t in b.calls():
+            nm = short(cname(t))
+            if not t["args"]:
+                continue
+            chain = _calls_in(an.terms.operand(t["args"][0]), [])
+            if "HashMap::<K, V, S, A>::get" not in chain:
+                continue
+            if nm in DEFAULTS or any(c in DEFAULTS for c in chain):
+                bad = ("default-for-missing", "`%s` on the result of the table lookup supplies a value when the element has no entry" % nm)
+            elif nm in ("Option::<T>::ok_or", "Option::<T>::ok_or_else") and all(c in PASS for c in chain):
+                seen_form = True
+        if bad:
+            res.oblige(False, "table")
+            res.violate(R6, fn, bad[0], bad[1], b.where())
+        elif seen_form:
+            res.oblige(True, "table")
+            res.hit(R6)
+    for ip in sorted(p for p in prog.bodies if p.startswith("<" + CAL) and p.endswith(INIT)):
+        own = ip[1:-len(INIT)]
+        mod, tag = own.rsplit("::MAP_", 1) if "::MAP_" in own else (None, None)
+        used = sorted(set(re.findall(r'"def": "([^"]*::BYTES_\w+)"', json.dumps(prog.bodies[ip].j))))
+        if mod is None or not used:
+            continue                       # another way of building the table: not this rule's vocabulary
+        ok = used == ["%s::BYTES_%s" % (mod, tag)]
+        res.oblige(ok, "table")
+        if ok:
+            res.hit(R7)
+        else:
+            res.violate(R7, own, "bytes:" + ",".join(u.split("::")[-1] for u in used),
+                        "the calibration table %s is built from %s, expected BYTES_%s of its own module" % (own, used, tag), prog.bodies[ip].where())
 
 
 def zip_longest(a, b):
